@@ -71,6 +71,8 @@ fn main() {
         "C01" => props::c01::run(&ctx, &mut model, &mut rep),
         "C04" => props::c04::run(&ctx, &mut model, &mut rep),
         "C15" => props::c15::run(&ctx, &mut model, &mut rep),
+        "C17" => props::c17::run(&ctx, &mut model, &mut rep),
+        "C18" => props::c18::run(&ctx, &mut model, &mut rep),
         "C20" => props::c20::run(&ctx, &mut model, &mut rep),
         other => {
             eprintln!("unknown property {}", other);
